@@ -31,6 +31,8 @@ def gen_scenario(rng, sid):
     if status == 302: hdrs.append((b"Location", b"/elsewhere?x=1"))
     n = rng.choice([0, 1, 2, 10, 100, 1000, 8000, 40000, 70000, 200000])
     if status in (204, 304): n = 0
+    loc_only = status == 302 and kind != "px" and rng.random() < 0.5          # RFC 3875 6.2.3: a Location field alone is a client redirect (302)
+    if loc_only: n = 0
     off = rng.randrange(1000)
     blocks = []
     left = n
@@ -50,6 +52,7 @@ def gen_scenario(rng, sid):
         head = b"HTTP/1.1 %d X\r\n" % status
     else:
         head = (b"Status: %d\r\n" % status) if (status != 200 or rng.random() < 0.3) else b""
+        if loc_only: head = b""
     for k, v in hdrs: head += k + b": " + v + b"\r\n"
     if brk == "bad-header": head += rng.choice([b"Broken Header Line Without Colon\r\n", b": empty-name\r\n", b"X\x01Y: ctl\r\n"])
     decl = len(body) + (rng.choice([1, 100, 70000]) if brk == "cl-long" else 0)
@@ -138,7 +141,7 @@ def backend_meaning(sc, model_line_out):
             if cm and len(content) - (i + 4) >= int(cm.group(1)) and sc["brk"] != "bad-header":
                 # the HTTP-level message is complete (declared length satisfied); only FastCGI's END_REQUEST is missing
                 sm = re.search(rb"(?im)^status:[ \t]*(\d{3})", content[:i])
-                return ("complete", int(sm.group(1)) if sm else 200, [tuple(x.split(b": ", 1)) for x in content[:i].split(b"\r\n") if b": " in x], content[i + 4:i + 4 + int(cm.group(1))])
+                return ("complete", int(sm.group(1)) if sm else (302 if re.search(rb"(?im)^location:", content[:i]) else 200), [tuple(x.split(b": ", 1)) for x in content[:i].split(b"\r\n") if b": " in x], content[i + 4:i + 4 + int(cm.group(1))])
             return ("broken",)
     else:
         content = sc["stream"]
@@ -157,6 +160,7 @@ def backend_meaning(sc, model_line_out):
     d = {}
     for k, v in hs: d.setdefault(k.lower(), []).append(v)
     if b"status" in d and kind != "px": status = int(d[b"status"][0][:3])
+    elif kind != "px" and b"location" in d: status = 302          # RFC 3875 6.2.3 / 6.3.2: Location without Status is a client redirect
     if status in (204, 304): return ("complete", status, hs, b"")
     if b"transfer-encoding" in d and kind == "px":
         v = model_line_out[-1]
@@ -205,6 +209,8 @@ def judge(sc, meaning, data, closed, methods):
             if v not in h.get(k.lower(), []): return "end-to-end header %r: %r sent by the backend is missing or altered (client has %r)" % (k, v, h.get(k.lower()))
         for k in h:
             if k.startswith(b"x-") and k not in [a.lower() for a, _ in hs]: return "client received header %r the backend never sent" % k
+        if sc["kind"] != "px" and b"status" in h:
+            return "the CGI Status line of the backend was relayed to the client as a header field (Status: %r)" % h[b"status"]
     elif methods[0] != b"HEAD" and sc["brk"] != "bad-header":
         # (a HEAD response carries no body whose truncation could show; a header line lighttpd skips as invalid is tolerated: DESIGN.md, C10 observations)
         if rs is not None and rs and 200 <= rs[0][0] < 400 and rs[0][0] != 304:
